@@ -22,9 +22,7 @@ META = {
             "ownership table), sequentially consistent atomics, compare_exchange_weak without spurious failures (a spurious failure "
             "equals a schedule with a retry), clients push only pages they hold. PagestackModel.v is validated against the code "
             "only on the generated schedules (exhaustive 2/3-thread prefixes + random 1..4 threads, capacities 0..600 = tree "
-            "heights 2..5). Known finding C53-leafTruncate-shift64: IdSet::leafTruncate() shifts a 64-bit word by 64 (undefined "
-            "behaviour) when a createFull stack has capacity % 64 == 0 and capacity is not 64*2^k (k>=1); on x86-64 the leaf keeps "
-            "its 1s, which the counters make unreachable, so the allocator still behaves; the model reproduces that value and flags it.",
+            "heights 2..5). UBSan runs in recover mode; every report during a case is counted by the harness, shown as UB=<n> in the result line and reported by the oracle (oracle:ub); the model never predicts one.",
     "technique": "Coq proof (inductive invariant over all interleavings of an unbounded number of processes: per-node counting "
                  "equations with weighted program-counter sums, per-page ownership equation, bit-level lemmas for x&(x-1) / "
                  "trailing zeros / fetch_or) + extracted-model differential correspondence under a scheduler-controlled std::atomic",
@@ -152,9 +150,6 @@ def parse(case, out):
     return cap, mode, n, parts[0].split(), fields
 
 
-UB_KNOWN = "oracle:ub:leafTruncate-shift64"
-
-
 def oracle(case, out):
     if out.startswith(("CRASH", "EXC", "ERR", "FUEL", "CTOR#")):
         return ("oracle:crash", "implementation crashed / threw / failed an assert() while constructing the stack: " + out[:200])
@@ -233,9 +228,7 @@ def oracle(case, out):
                             "pop() of thread %d (events %d..%d) failed although at every moment of the call at least %d page(s) were "
                             "in the stack and not claimable by any call in progress" % (c[0], a, b, min(definitely_free[a:b])))
         if "UB" in f:
-            if mode == "F" and cap % 64 == 0 and f["UB"] == "1":
-                return (UB_KNOWN, "UBSan: IdSet::leafTruncate() evaluates `node >>= 64` for createFull capacity %d" % cap)
-            return ("oracle:ub", "UBSan reported %s instance(s) of undefined behaviour" % f["UB"])
+            return ("oracle:ub", "UBSan reported %s instance(s) of undefined behaviour in PageStack.cc while running this case" % f["UB"])
         if any(c[3] is None for c in calls):
             return ("oracle:unfinished", "a call never returned")
         # quiescence: every client is between calls / ended
